@@ -16,7 +16,7 @@ def run(ctx):
                          "Validate(example text) must succeed; and every single-rule corruption (the example of one node replaced by a value violating one of its rules, or the item count "
                          "changed): Check must fail at the offset of that value; non-trivial = schema with a container and at least two rules")
     ctx.assumptions += ["Coq part: C04_self_valid on the rule-free fragment (Shape model) and the exact numeric rule semantics of C10; rule semantics of the other rules are checked through the API only"]
-    n = 500 if quick else 20000
+    n = 2000 if quick else 40000
     base, planted = [], []
     for _ in range(n):
         w = J.rand_rule_schema(rng, rng.randint(0, 4))
